@@ -2438,3 +2438,45 @@ Qed.
 Theorem url_to_origin_none_on_bad_port us url sc0 hn : lower url <> NULL_S -> us url = UsOk sc0 hn PortRaises -> lower sc0 <> FILE_S ->
   url_to_origin us url = None.
 Proof. intros E1 U E2. unfold url_to_origin. apply str_eqb_neq in E1, E2. now rewrite E1, U, E2. Qed.
+
+
+
+(* ========================================================================================== *)
+(* configuration plumbing                                                                     *)
+
+Lemma set_no_update c : set_protocol_options c no_update = c.
+Proof. destruct c; reflexivity. Qed.
+
+(* calls that name no handshake option leave the configuration - hence every verdict - unchanged *)
+Theorem configure_unrelated c calls : Forall (fun u => u = no_update) calls -> configure c calls = c.
+Proof.
+  unfold configure. revert c; induction calls as [|u r IH]; intros c H; [reflexivity|].
+  inversion H as [|? ? Hu Hr]; subst. cbn [fold_left]. rewrite set_no_update. now apply IH.
+Qed.
+
+Theorem verdict_unrelated c calls e chunks : Forall (fun u => u = no_update) calls ->
+  s_run (configure c calls) e chunks = s_run c e chunks.
+Proof. intros H. now rewrite configure_unrelated. Qed.
+
+(* unrelated calls may be interleaved anywhere *)
+Theorem configure_insert_unrelated c a b : configure c (a ++ no_update :: b) = configure c (a ++ b).
+Proof. unfold configure. rewrite !fold_left_app. cbn [fold_left]. now rewrite set_no_update. Qed.
+
+(* each option ends up with the value of the LAST call that names it, otherwise keeps its old value; the other options of a
+   call do not matter *)
+Theorem configure_fields c calls :
+  s_versions (configure c calls) = last_named up_versions calls (s_versions c) /\
+  s_web_status (configure c calls) = last_named up_web_status calls (s_web_status c) /\
+  s_allowed_origins (configure c calls) = last_named up_allowed_origins calls (s_allowed_origins c) /\
+  s_allow_null_origin (configure c calls) = last_named up_allow_null_origin calls (s_allow_null_origin c) /\
+  s_max_connections (configure c calls) = last_named up_max_connections calls (s_max_connections c) /\
+  s_serve_flash (configure c calls) = last_named up_serve_flash calls (s_serve_flash c) /\
+  s_flavour (configure c calls) = s_flavour c /\ s_external_port (configure c calls) = s_external_port c /\
+  s_count_connections (configure c calls) = s_count_connections c /\ s_server (configure c calls) = s_server c /\
+  s_headers (configure c calls) = s_headers c.
+Proof.
+  unfold configure. revert c; induction calls as [|u r IH]; intros c; [cbn; repeat split|].
+  cbn [fold_left last_named]. specialize (IH (set_protocol_options c u)). cbn [set_protocol_options s_versions s_web_status
+    s_allowed_origins s_allow_null_origin s_max_connections s_serve_flash s_flavour s_external_port s_count_connections s_server s_headers] in IH.
+  exact IH.
+Qed.
